@@ -210,6 +210,39 @@ pub fn replay(_ctx: &Ctx, case: &str) -> Result<(), String> {
     check_seq(kv.str("eng"), kv.str("dir") == "dec", Kind::parse(kv.str("kind")), kv.u64("soil"), &parse_steps(kv.str("steps")), kv.u64("seed"), &refm).map_err(|(e, o)| format!("expected {e}; observed {o}"))
 }
 
+/// depth-3 sequences over a reduced alphabet (size-class changes with equal counts, one rate switch,
+/// one padded configuration), used in the quick tier where the full depth-3 space is too big
+fn gen_reduced3(decoder: bool, kind0: Kind) -> Vec<Vec<Step>> {
+    let cfgs = [0usize, 2, 4, 5, 8, 9]; // (3,2,64) (5,3,66) (1,1,2) (3,3,64) (3,2,100) (3,2,120)
+    let trans: Vec<char> = if kind0 == Kind::Rs { vec!['r', 'i'] } else { vec!['r', 'i', 'D', 'L'] };
+    let mut out = Vec::new();
+    for &c0 in &cfgs {
+        for &c1 in &cfgs {
+            for &t1 in &trans {
+                if t1 == 'i' && c1 != c0 {
+                    continue;
+                }
+                for &c2 in &cfgs {
+                    for &t2 in &trans {
+                        if t2 == 'i' && c2 != c1 {
+                            continue;
+                        }
+                        for data in 0..2u8 {
+                            let shape = if decoder { data + 1 } else { 0 };
+                            out.push(vec![
+                                Step { cfg: c0, trans: 'n', data: 0, shape: 0, abandoned: false },
+                                Step { cfg: c1, trans: t1, data: 1, shape: 2, abandoned: false },
+                                Step { cfg: c2, trans: t2, data, shape, abandoned: false },
+                            ]);
+                        }
+                    }
+                }
+            }
+        }
+    }
+    out
+}
+
 fn gen_sequences(decoder: bool, kind0: Kind, d: usize, thorough: bool) -> Vec<Vec<Step>> {
     // transitions available
     let mut out: Vec<Vec<Step>> = Vec::new();
@@ -283,7 +316,17 @@ pub fn run(ctx: &Ctx, rep: &mut Report) {
             }
         }
     }
-    rep.bound("depth", J::s(format!("d <= {dmax_all} (d = 3: nosimd and default engine, soiled start, earlier rounds completed)")));
+    if !ctx.thorough() {
+        for decoder in [false, true] {
+            for kind0 in [Kind::Rs, Kind::Def, Kind::High, Kind::Low] {
+                let eng: &'static str = if kind0 == Kind::Rs { "default" } else { "nosimd" };
+                for seq in gen_reduced3(decoder, kind0) {
+                    jobs.push((eng, decoder, kind0, seed | 1, seq));
+                }
+            }
+        }
+    }
+    rep.bound("depth", J::s(format!("d <= {dmax_all} (d = 3: nosimd and default engine, soiled start, earlier rounds completed; quick: d = 3 over a reduced 6-member alphabet)")));
     rep.bound("alphabet", J::s(format!("{CFGS:?}")));
     let results: Vec<Result<(), V>> = par_for(jobs.len(), 16, |i| {
         let (eng, decoder, kind0, soil, seq) = &jobs[i];
